@@ -96,15 +96,30 @@ ROUTE_SUITE = {"suite": "route", "trace": "Trace_Router", "cfg": "Trace_Router.c
                "quick": {"runs": 24, "ops": 60}, "thorough": {"runs": 2000, "ops": 120}, "procs": 6}
 MC_ROUTER = {"module": "MC_Router", "quick": "MC_Router.cfg", "thorough": "MC_Router.cfg", "workers": 4}
 
+def _wit(module, cfg, expect):
+    """a witness configuration: the bounded model with a named deviation switched on; it must violate `expect`"""
+    return {"module": module, "quick": cfg, "thorough": cfg, "workers": 2, "expect": expect, "timeout": {"quick": 300, "thorough": 600}}
+
+WIT_EMISSION = [_wit("MC_Emission", "MC_Emission_witness_start.cfg", "Invariant NeverRefused is violated"),
+                _wit("MC_Emission", "MC_Emission_witness_stretch.cfg", "Invariant NeverRefused is violated")]
+WIT_WEIGHTHIST = [_wit("MC_WeightHist", "MC_WeightHist_witness_a.cfg", "Invariant SharesWithinSnapshot is violated"),
+                  _wit("MC_WeightHist", "MC_WeightHist_witness_b.cfg", "Invariant SharesWithinSnapshot is violated"),
+                  _wit("MC_WeightHist", "MC_WeightHist_witness_scheduled.cfg", "Invariant SharesWithinSnapshot is violated")]
+# the weight histories entry by entry: quick = the "settled claims beside a scheduled flow" configuration at three epochs,
+# thorough = that one, the one without the scheduled flow and the one without closes at four epochs
+MC_WEIGHTHIST = [{"module": "MC_WeightHist", "quick": "MC_WeightHist_quick.cfg", "thorough": "MC_WeightHist_late_scheduled.cfg", "workers": 6},
+                 {"module": "MC_WeightHist", "quick": "MC_WeightHist_quick_noclose.cfg", "thorough": "MC_WeightHist.cfg", "workers": 6},
+                 {"module": "MC_WeightHist", "quick": "MC_WeightHist_quick_late.cfg", "thorough": "MC_WeightHist_late.cfg", "workers": 6}] + WIT_WEIGHTHIST
+
 PROPS = {
     "C01": {"mc": [MC_POOL], "suites": [POOL_SUITE]},
     "C02": {"mc": [MC_CPMATH], "suites": [MATH_CP, POOL_SUITE]},
     "C03": {"mc": [MC_STABLE], "suites": [MATH_ST2, POOL_STABLE]},
     "C04": {"mc": [MC_STABLE] + MC_TRIO, "suites": [MATH_ST3, TRIO_SUITE]},
-    "C05": {"mc": [MC_VAULT], "suites": [VAULT_SUITE]},
-    "C06": {"mc": [MC_VAULT], "suites": [VAULT_SUITE]},
+    "C05": {"mc": [MC_VAULT, _wit("MC_Vault", "MC_Vault_S3witness.cfg", "Invariant LoanTxOK is violated")], "suites": [VAULT_SUITE]},
+    "C06": {"mc": [MC_VAULT, _wit("MC_Vault", "MC_Vault_S3witness.cfg", "Invariant LoanTxOK is violated")], "suites": [VAULT_SUITE]},
     "C07": {"mc": [MC_POOL, MC_VAULT], "suites": [POOL_SUITE, VAULT_SUITE, POOL_STABLE, TRIO_SUITE]},
-    "C08": {"mc": [MC_LAIR, MC_LAIR_SCHED, {"module": "MC_LairWeight", "quick": "MC_LairWeight.cfg", "thorough": "MC_LairWeight.cfg", "workers": 4}], "suites": [LAIR_SCHED, LAIR_RANDOM]},
+    "C08": {"mc": [MC_LAIR, MC_LAIR_SCHED, {"module": "MC_LairWeight", "quick": "MC_LairWeight.cfg", "thorough": "MC_LairWeight.cfg", "workers": 4}, _wit("MC_LairWeight", "MC_LairWeight_witness.cfg", "Invariant WeightsWithinGlobal is violated")], "suites": [LAIR_SCHED, LAIR_RANDOM]},
     "C20": {"mc": [_mc_ep("manager", False), _mc_ep("distributor", False), _mc_ep("manager", True), _mc_ep("distributor", True)],
             "suites": [_ep("manager", True), _ep("distributor", True), _ep("manager", False), _ep("distributor", False)],
             # unbounded (any duration, genesis, time steps): inductive invariant of the clock, initiation + consecution
@@ -124,14 +139,14 @@ PROPS = {
                         "extra": {"mode": "sched"}, "quick": {"runs": 0}, "thorough": {"runs": 0}, "procs": 6},
                        POOL_SUITE, VAULT_SUITE, TRIO_SUITE, DIST_RANDOM]},
     "C19": {"mc": [m for m, _ in _REG], "suites": [x for _, x in _REG]},
-    "C09": {"mc": [MC_DIST, MC_DIST_SCHED, {"module": "MC_BondedClaims", "quick": "MC_BondedClaims_quick.cfg", "thorough": "MC_BondedClaims.cfg", "workers": 4}], "suites": [DIST_SCHED, DIST_RANDOM, DIST_MULTI]},
+    "C09": {"mc": [MC_DIST, MC_DIST_SCHED, {"module": "MC_BondedClaims", "quick": "MC_BondedClaims_quick.cfg", "thorough": "MC_BondedClaims.cfg", "workers": 4}, _wit("MC_BondedClaims", "MC_BondedClaims_witness.cfg", "Invariant NeverRefused is violated")], "suites": [DIST_SCHED, DIST_RANDOM, DIST_MULTI]},
     "C10": {"mc": [{"module": "MC_Pipeline", "quick": "MC_Pipeline.cfg", "thorough": "MC_Pipeline.cfg", "workers": 4, "emits": "MC_Pipeline"}, MC_DIST],
             "suites": [{"suite": "pipeline", "trace": "Trace_Pipeline", "cfg": "Trace_Pipeline.cfg", "sched_from": "MC_Pipeline",
                         "extra": {"mode": "sched"}, "quick": {"runs": 400}, "thorough": {"runs": 0}, "procs": 8}, DIST_RANDOM, DIST_MULTI],
             "tags": ["C10."]},
-    "C11": {"mc": MC_INC + [MC_HELPER], "suites": [INC_SCHED, INC_RANDOM, HELPER_SUITE]},
-    "C12": {"mc": MC_INC + [MC_EMISSION], "suites": [INC_SCHED, INC_RANDOM]},
-    "C13": {"mc": MC_INC + [MC_EMISSION], "suites": [INC_SCHED, INC_RANDOM, MATH_WEIGHT]},
-    "C14": {"mc": [MC_POOL, MC_VAULT, MC_ROUTER], "suites": [POOL_SUITE, VAULT_SUITE, ROUTE_SUITE, TRIO_SUITE, POOL_STABLE]},
-    "C15": {"mc": [MC_POOL, MC_ROUTER], "suites": [POOL_SUITE, MATH_SPREAD, ROUTE_SUITE, POOL_STABLE, TRIO_SUITE]},
+    "C11": {"mc": MC_INC + [MC_HELPER, _wit("MC_Helper", "MC_Helper_witness.cfg", "Invariant ClausesHold is violated")], "suites": [INC_SCHED, INC_RANDOM, HELPER_SUITE]},
+    "C12": {"mc": MC_INC + [MC_EMISSION] + WIT_EMISSION, "suites": [INC_SCHED, INC_RANDOM]},
+    "C13": {"mc": MC_INC + [MC_EMISSION, _wit("MC_Incentive", "MC_Incentive_S8witness.cfg", "Invariant WeightMatchesPositions is violated")] + MC_WEIGHTHIST, "suites": [INC_SCHED, INC_RANDOM, MATH_WEIGHT]},
+    "C14": {"mc": [MC_POOL, MC_VAULT, MC_ROUTER, _wit("MC_Router", "MC_Router_witness.cfg", "Invariant ClausesHold is violated")], "suites": [POOL_SUITE, VAULT_SUITE, ROUTE_SUITE, TRIO_SUITE, POOL_STABLE]},
+    "C15": {"mc": [MC_POOL, MC_ROUTER, _wit("MC_Router", "MC_Router_witness.cfg", "Invariant ClausesHold is violated")], "suites": [POOL_SUITE, MATH_SPREAD, ROUTE_SUITE, POOL_STABLE, TRIO_SUITE]},
 }
